@@ -175,6 +175,13 @@ def classify(core, small):
     for suffix, pred, name in CLASSES:
         if core.endswith(suffix) and pred(small):
             return f"{core}:{name}"
+    if (core.startswith("valid-workflow-raises:") and ("@state.py:" in core or "@lazy.py:" in core)
+            and p_fan_in_shared_origin(small)):
+        # the merged state of a fan-in of a shared origin is inconsistent (state.py marks these paths
+        # "not tested"); depending on what else the node does the inconsistency raises at many places
+        # of state.py / lazy.py (seen: _remove_repeated, combine_final_groups, group_values,
+        # _add_state_history, map_splits) - one root cause, one signature
+        return "valid-workflow-raises:state-merging-error:fan-in-of-shared-origin"
     return f"{core}:{M.essential_shape(small)}"
 
 
